@@ -100,7 +100,7 @@ def run(ctx):
         for j in range(k):
             pg = gen.PropGen(rng, maxdepth=rng.randrange(1, 3), kw_names=0.15 if i % 5 == 0 else 0.0,
                              max_width=rng.choice((1, 2, 3)), pred_prob=rng.choice((0.0, 0.5, 0.9)),
-                             alias_prob=rng.choice((0.0, 0.6)))
+                             alias_prob=rng.choice((0.0, 0.6)), const_preds=0.05)
             p, _, _ = pg.make(n=i * 10 + j)
             if len(pool) < 200:
                 pool.append(p)
